@@ -54,7 +54,20 @@ def gate_class():
             """a structural block that only contains other blocks"""
             def __init__(self, parent, name):
                 super().__init__(parent, name)
-        _gate[0] = XorGate; _gate.append(IfGate); _gate.append(Box)
+        class PortsOnly(py4hw.Logic):
+            """a base class that only declares ports (no behaviour): as a block it is a legal black box that is never evaluated"""
+            def __init__(self, parent, name, ins, outs):
+                super().__init__(parent, name)
+                self.ins = [self.addIn('i%d' % k, w) for k, w in enumerate(ins)]
+                self.outs = [self.addOut('o%d' % k, w) for k, w in enumerate(outs)]
+
+        class StagedGate(PortsOnly):
+            """the behaviour is added by the subclass"""
+            def propagate(self):
+                v = 0
+                for w in self.ins: v ^= w.get()
+                for k, w in enumerate(self.outs): w.put(v + k + 1)
+        _gate[0] = XorGate; _gate.append(IfGate); _gate.append(Box); _gate.append(PortsOnly); _gate.append(StagedGate)
     return _gate[0]
 
 
@@ -119,6 +132,14 @@ class Net:
         for k, rg in enumerate(spec['regs']):
             self.wire[('q', k)] = mk(('q', k), 'q%d' % k, rg['w'])
         self.box = {}
+        # 'preamble': blocks without behaviour instantiated BEFORE everything else (what a process instantiates first matters
+        # when an implementation remembers per-class facts): a bare py4hw.Logic container with a port, a ports-only stub
+        pre = spec.get('preamble')
+        with quiet():
+            if pre in ('logic_port', 'both'):
+                g = py4hw.Logic(self.hw, 'grp'); g.addIn('x', self.wire[('i', 0)])
+            if pre in ('stub_first', 'both'):
+                _gate[3](self.hw, 'stub', [self.wire[('i', 0)]], [self.hw.wire('stub_o', 1)])
         self.done = []                  # items instantiated so far, in order
         self.obj = {}                   # item -> py4hw object
         self.leaf_items = []            # combinational blocks in instantiation order (= leaf index when none is structural)
@@ -153,6 +174,7 @@ class Net:
                     elif k == 'catl': ob = C(py4hw.ConcatenateLSBF)(hw, name, ins, outs[0])
                     elif k == 'bitsl': ob = C(py4hw.BitsLSBF)(hw, name, ins[0], outs)
                     elif k == 'gate': ob = C(gate_class())(hw, name, ins, outs)
+                    elif k == 'staged': ob = C(_gate[4])(hw, name, ins, outs)
                     elif k == 'xor2': ob = py4hw.Xor2(hw, name, ins[0], ins[1], outs[0])      # structural: 4 Nand2 = 8 leaves
                     elif k == 'add': ob = py4hw.Add(hw, name, ins[0], ins[1], outs[0])        # structural: Constant ci + AddCarryIn add
                     elif k in IF_KINDS:
@@ -315,7 +337,7 @@ def node_fn(nd, vals, widths):
         for x, w in seq: v = (v << w) | x
         r = [v]
     elif k == 'bitsl': r = [(vals[0] >> i) & 1 for i in range(len(outs))]
-    elif k in ('gate', 'isink', 'isrc'):
+    elif k in ('gate', 'isink', 'isrc', 'staged'):
         v = 0
         for x in vals: v ^= x
         r = [v + o + 1 for o in range(len(outs))]
@@ -363,7 +385,7 @@ def rand_netlist(rng, n, flavour='dag', n_in=2, n_regs=0, lib_only=True, struct=
         if outs_so_far and rng.random() < .8:
             return list(rng.choice(outs_so_far[-6:] if rng.random() < .6 else outs_so_far))
         return list(rng.choice(pool_in))
-    kinds = ['buf', 'not', 'and2', 'or2', 'and2', 'or2', 'mux2', 'const', 'catm', 'catl', 'bitsl'] + ([] if lib_only else ['gate', 'gate'])
+    kinds = ['buf', 'not', 'and2', 'or2', 'and2', 'or2', 'mux2', 'const', 'catm', 'catl', 'bitsl'] + ([] if lib_only else ['gate', 'gate', 'staged'])
     if struct: kinds += ['xor2', 'xor2', 'add', 'add']
     if itf: kinds += ['isink', 'isink', 'isink', 'isrc']
     for j in range(n):
@@ -381,7 +403,7 @@ def rand_netlist(rng, n, flavour='dag', n_in=2, n_regs=0, lib_only=True, struct=
             r = pick()
             if ref_width(spec, r) > 4: nd['kind'] = 'buf'; nd['ins'] = [r]
             else: nd['ins'] = [r]; nd['outs'] = [1] * ref_width(spec, r)
-        elif k in ('gate', 'isink', 'isrc'):
+        elif k in ('gate', 'isink', 'isrc', 'staged'):
             nd['ins'] = [pick() for _ in range(rng.randint(0 if k == 'gate' else 1, 4))]; nd['outs'] = [rng.randint(1, 4) for _ in range(rng.randint(1, 3))]
         elif k == 'add':
             nd['ins'] = [pick(), pick()]; nd['outs'] = [max(ref_width(spec, r) for r in nd['ins']) + rng.randint(0, 1)]
@@ -399,7 +421,7 @@ def rand_netlist(rng, n, flavour='dag', n_in=2, n_regs=0, lib_only=True, struct=
     if m < .2: items.reverse()
     elif m < .9: rng.shuffle(items)
     spec['order'] = items
-    free = ('buf', 'not', 'and2', 'or2', 'mux2', 'gate', 'const', 'isink', 'isrc')
+    free = ('buf', 'not', 'and2', 'or2', 'mux2', 'gate', 'const', 'isink', 'isrc', 'staged')
     if flavour == 'cycle':
         # a back edge v -> u with u ->* v in the DAG closes a cycle through >= 2 leaves
         reach = [set() for _ in range(n)]
@@ -411,7 +433,7 @@ def rand_netlist(rng, n, flavour='dag', n_in=2, n_regs=0, lib_only=True, struct=
         if not cands: return None
         u, v = rng.choice(cands); nu = spec['nodes'][u]
         back = ['n', v, rng.randrange(len(spec['nodes'][v]['outs']))]
-        if nu['kind'] in ('gate', 'isink', 'isrc') and not nu['ins']: nu['ins'] = [back]
+        if nu['kind'] in ('gate', 'isink', 'isrc', 'staged') and not nu['ins']: nu['ins'] = [back]
         elif nu['kind'] == 'const': nu['kind'] = 'buf'; nu['ins'] = [back]
         else: nu['ins'][rng.randrange(len(nu['ins']))] = back
     elif flavour == 'selfloop':
@@ -419,7 +441,7 @@ def rand_netlist(rng, n, flavour='dag', n_in=2, n_regs=0, lib_only=True, struct=
         if not cands: return None
         u = rng.choice(cands); nu = spec['nodes'][u]
         back = ['n', u, rng.randrange(len(nu['outs']))]
-        if nu['kind'] in ('gate', 'isink', 'isrc') and not nu['ins']: nu['ins'] = [back]
+        if nu['kind'] in ('gate', 'isink', 'isrc', 'staged') and not nu['ins']: nu['ins'] = [back]
         elif nu['kind'] == 'const': nu['kind'] = 'buf'; nu['ins'] = [back]
         else: nu['ins'][rng.randrange(len(nu['ins']))] = back
     return spec
